@@ -9,6 +9,7 @@
 (***************************************************************************)
 EXTENDS Integers, Sequences
 
+\* an angle denotes a rotation: a, a - 360 and a + 360 are the same placement (the replay writes every angle all three ways)
 Angles == {0, 90, 180, 270}
 Cos(a) == CASE a = 0 -> 1 [] a = 90 -> 0 [] a = 180 -> -1 [] a = 270 -> 0
 Sin(a) == CASE a = 0 -> 0 [] a = 90 -> 1 [] a = 180 -> 0 [] a = 270 -> -1
